@@ -589,6 +589,7 @@ def run(chk):
     _vmnarrow_rule(chk)
     _scanrange_rule(chk)
     _variadicloop_rule(chk, tu)
+    _u64range_rule(chk, tu)
     chk.floor("C14-DIV", 8)
     chk.floor("C14-WRAP", 10)
     chk.floor("C14-METHODS", 40)
@@ -661,3 +662,33 @@ def _variadicloop_rule(chk, tu):
                               "%s returns from inside its loop over the operands: the operands after that one are ignored, so the "
                               "method and the polymorphic function disagree for three or more operands" % fn.name)
     chk.floor(rule, 10, n)
+
+
+def _u64range_rule(chk, tu):
+    """A number becomes an int/u64 operand only if it is a whole value in [0, 2^64): the unsigned range test.  The
+    signed test (|d| <= 2^53, whole) followed by a cast lets every negative whole number through as its two's
+    complement: (int/u64 -1) is 18446744073709551615 instead of an error."""
+    rule = "C14-U64RANGE"
+    chk.rule(rule, "janet_unwrap_u64 turns a number into a uint64 only on a path that applied the unsigned range test")
+    fn = tu.funcs.get("janet_unwrap_u64")
+    if fn is None:
+        raise AnalysisBroken("janet_unwrap_u64 not found")
+    chk.analysed(fn)
+    rets = [x for x in fn.nodes if x.k == "return" and x.kids and x.kids[0].k == "cast" and "uint64_t" in (x.kids[0].t or "") and
+            not any(y.k == "un" and y.op == "*" for y in x.kids[0].walk())]
+    if not rets:
+        raise AnalysisBroken("janet_unwrap_u64: conversion of a number not found")
+    IN, T = flow.condition_facts(fn)
+    for x, S in flow.states_at(fn, IN, T):
+        if x in rets:
+            chk.instance(rule)
+            ok = bool(S) and all(any((ln is not None and any("janet_checkuint64range" in y.macro_names() for y in ln.walk())) or
+                                     (ln is not None and rn is not None and op == ">=" and rn.v == 0 and (strip_casts(ln).t or "") == "double")
+                                     for (op, l, r, toks, ln, rn) in ps) for ps in S)
+            if ok:
+                chk.ok(rule, "janet_unwrap_u64: `%s` after the unsigned range test" % x.text()[:40])
+            else:
+                chk.violation(rule, "inttypes.c", "janet_unwrap_u64", "signed-range", x.loc,
+                              "`%s` converts a number that was not tested against [0, 2^64): negative whole numbers become huge unsigned "
+                              "values instead of raising" % x.text()[:50])
+    chk.floor(rule, 1, len(rets))
